@@ -425,3 +425,45 @@ def apalache_stage(res, module, inv, timeout=300):
     res.lemmas.append({"module": "spec/mech/" + module, "lemmas": [inv], "engine": "apalache 0.58 (unbounded Int)", "result": result, "wall_s": t.s()})
     if result == "counterexample":
         raise tlc.TLCError(f"Apalache found a counterexample to {inv} in {module}: the mechanism model or the code changed")
+
+
+# ------------------------------------------------------------------ the repository's own suite, re-judged call by call (binding B)
+_SUITE_CACHE = {}
+
+
+def suite_trace_stage(res, prop, op):
+    """Run the pinned suite of the working tree under the trace plugin (NPSTRUCTURES_VERIF=1; no source change), and let TLC judge every
+    recorded outermost public call of the given operation.  The suite's own outcome is not judged here."""
+    import subprocess
+    from .common import REPO, PY
+    t = Timer()
+    out = os.path.join(scratch(), f"suite_trace.{os.getpid()}.json")
+    env = dict(os.environ, NPSTRUCTURES_VERIF="1", VERIF_TRACE_OUT=out, PYTHONPATH=REPO + os.pathsep + VERIF, VERIF_REPO=REPO, PYTHONDONTWRITEBYTECODE="1")
+    p = subprocess.run([PY, "-m", "pytest", "-q", "-x", "--no-header", "-p", "no:cacheprovider", "-p", "harness.pytest_trace_plugin", "--timeout=600"],
+                       cwd=REPO, env=env, capture_output=True, text=True)
+    if not os.path.exists(out):
+        res.extra.setdefault("suite_trace", []).append({"op": op, "error": "no trace written: " + (p.stdout + p.stderr)[-300:]})
+        return res
+    events = [e for e in json.load(open(out)) if e["case"][0] == op]
+    os.remove(out)
+    for i, e in enumerate(events):
+        e["id"] = i
+    if not events:
+        res.extra.setdefault("suite_trace", []).append({"op": op, "events": 0})
+        return res
+    verdicts, st = trace.validate([{"id": e["id"], "case": e["case"], "out": e["out"], "strict": bool(e["strict"])} for e in events], "Trace_Ragged")
+    res.states += st["trace_states"]
+    res.transitions += st["trace_states"]
+    n_unspec = 0
+    for e in events:
+        v, exp = verdicts[e["id"]]
+        if v == "unspec":
+            n_unspec += 1
+        elif v != "ok":
+            res.bad.append({"case": e["case"], "opts": {"recorded_in": e.get("test", "")}, "expected": exp, "observed": e["out"], "verdict": v,
+                            "binding": "B:code->tlc (call recorded while the repository's own suite ran)", "family": "ragged"})
+    res.evaluations += len(events)
+    res.traces += len(events) - n_unspec
+    res.unspec += n_unspec
+    res.extra.setdefault("suite_trace", []).append({"op": op, "events": len(events), "out_of_claim": n_unspec, "suite_summary": (p.stdout.strip().splitlines() or [""])[-1][:120], "wall_s": t.s()})
+    return res
